@@ -523,6 +523,31 @@ func c14Case(w *core.Worker, i int) {
 			if !same(tab0, tab2) {
 				viol("cached-table-changed", "the table differs after ROLLBACK of the only change")
 			}
+			// rows derived from the cached table before a change (a view materialised from it, an open cursor, a variable)
+			// are only read by the later UPDATE of the table: they keep their values
+			exec("UPDATE t SET c1 = c1 WHERE id = 1;") // the table is now held as an updatable cached copy
+			exec("DECLARE snap14 VIEW AS SELECT id, c1, c2 FROM t;")
+			exec("DECLARE curd14 CURSOR FOR SELECT id, c1 FROM t; OPEN curd14;")
+			exec("VAR @d14 := (SELECT c1 FROM t WHERE id = 2);")
+			d0 := exec("SELECT * FROM snap14;")
+			v0 := exec("SELECT @d14;")
+			exec("UPDATE t SET c1 = 'changed14', c2 = c3;")
+			exec("UPDATE t SET c3 = c1, c1 = c3 WHERE id <= 3;")
+			d1 := exec("SELECT * FROM snap14;")
+			v1 := exec("SELECT @d14;")
+			if !same(d0, d1) {
+				viol("derived-rows-changed", "a view materialised from the table before an UPDATE of the table shows other rows after it")
+			}
+			if !same(v0, v1) {
+				viol("derived-rows-changed", fmt.Sprintf("a variable assigned from a cell was %v and is %v after an UPDATE of the table", resText(v0), resText(v1)))
+			}
+			exec("VAR @f14a; VAR @f14b; FETCH ABSOLUTE 1 curd14 INTO @f14a, @f14b;")
+			if len(tab0.Views) == 1 && len(tab0.Views[0].Rows) > 1 {
+				if f := exec("SELECT @f14b;"); f.Err == nil && len(f.Views) == 1 && f.Views[0].Rows[0][0] != tab0.Views[0].Rows[1][1] {
+					viol("derived-rows-changed", fmt.Sprintf("a cursor opened before the UPDATE returns %v for a cell that held %v", f.Views[0].Rows[0][0], tab0.Views[0].Rows[1][1]))
+				}
+			}
+			exec("CLOSE curd14; DISPOSE CURSOR curd14; DISPOSE VIEW snap14; DISPOSE @d14; DISPOSE @f14a; DISPOSE @f14b; ROLLBACK;")
 		}
 		s.Close()
 		st := verifhook.TakeDiscardStats(true)
